@@ -23,7 +23,7 @@ STUB_HARNESSES = [
 PROPS = {
     'C01': dict(units=['core_all', 'route'], level='proof'),
     'C02': dict(units=['core_all', 'events', 'route'], level='proof'),
-    'C03': dict(units=['core_all'], level='proof', kani=[
+    'C03': dict(units=['core_all', 'route'], level='proof', kani=[
         K('lemma_score_gt_neg1', 'C03.kani.lemma.score_of_a_connected_candidate_exceeds_the_start_score', kind='lemma'),
         K('lemma_one_is_q_ok', 'C03.kani.lemma.default_quality_is_in_range', kind='lemma'),
         K('quality_multiplier_range', 'C03.kani.quality_multiplier_in_035_12'),
@@ -36,7 +36,7 @@ PROPS = {
         K('in_flight_cap_at_least_one', 'C11.kani.in_flight_cap_at_least_one_packet_and_none_iff_no_target'),
         K('lemma_score_gt_neg1', 'C11.kani.lemma.scores_are_finite_and_above_the_start_score', kind='lemma'),
     ]),
-    'C05': dict(units=['core_all', 'events', 'route'], level='proof'),
+    'C05': dict(units=['core_all', 'events', 'route', 'conns'], level='proof'),
     'C09': dict(units=['core_all', 'events', 'route', 'reg', 'drain'], level='proof', kani=[
         K('decoders_total_and_layouts_le24', 'C09.kani.decoders_never_panic_on_short_frames', kind='bounded', bound='every byte string of length 0..=24'),
     ]),
